@@ -403,6 +403,17 @@ fn ends_after_terminator(t: &[char]) -> bool {
     h.len() >= 8 && br_tag_at(h, h.len() - 4) && br_tag_at(h, h.len() - 8)
 }
 
+/// long sentences abbreviated for messages
+fn ab(t: &str) -> String {
+    let n = t.chars().count();
+    if n <= 48 {
+        return t.to_string();
+    }
+    let head: String = t.chars().take(12).collect();
+    let tail: String = t.chars().skip(n - 24).collect();
+    format!("{}…({} characters)…{}", head, n, tail)
+}
+
 fn property_on_output(text: &str, chars: &[char], lex: Option<&[Vec<char>]>, limit: usize, o: &Outcome) -> Option<(String, &'static str)> {
     let mut known: Option<(String, &'static str)> = None;
     let ranges = match &o.ranges {
@@ -435,21 +446,21 @@ fn property_on_output(text: &str, chars: &[char], lex: Option<&[Vec<char>]>, lim
         let sent: Vec<char> = text[b..e].chars().collect();
         if i + 1 < ranges.len() {
             if !ends_after_terminator(&sent) {
-                return Some((format!("sentence {} ({:?}) is not the last one and does not end after a terminator", i, &text[b..e]), ""));
+                return Some((format!("sentence {} ({:?}) is not the last one and does not end after a terminator", i, ab(&text[b..e])), ""));
             }
             if paren_level(&sent) > 0 {
-                return Some((format!("break after sentence {} ({:?}) lies inside an unclosed bracket", i, &text[b..e]), ""));
+                return Some((format!("break after sentence {} ({:?}) lies inside an unclosed bracket", i, ab(&text[b..e])), ""));
             }
             if let Some(l) = lex {
                 let cstart = text[..b].chars().count();
                 let rest = &chars[cstart..];
                 if non_break_word(rest, l, sent.len()) {
-                    return Some((format!("break after sentence {} ({:?}) lies inside / at the end of a multi-character dictionary word", i, &text[b..e]), ""));
+                    return Some((format!("break after sentence {} ({:?}) lies inside / at the end of a multi-character dictionary word", i, ab(&text[b..e])), ""));
                 }
                 if known.is_none() && word_across_unbounded(rest, l, sent.len()) {
                     // only words that start before the 30-byte look-back window are left: the recorded finding
                     known = Some((
-                        format!("break after sentence {} ({:?}) lies inside / at the end of a multi-character dictionary word that starts more than 30 bytes before the break", i, &text[b..e]),
+                        format!("break after sentence {} ({:?}) lies inside / at the end of a multi-character dictionary word that starts more than 30 bytes before the break", i, ab(&text[b..e])),
                         CLASS_LOOKBACK,
                     ));
                 }
@@ -758,6 +769,20 @@ fn one_case(sink: &mut Sink, text: &str, limit: usize, layers: &Option<Lexicon>,
     }
 }
 
+/// More than 65,536 BYTES of unpunctuated text, then a dictionary word that contains a terminator, then more text; windows
+/// above and just below the length of the text, with the checker.  Byte offsets of dictionary words found there exceed
+/// every 16-bit quantity (the model's offsets are unbounded).  Directed: the same two cases under every seed.
+fn wide_cases() -> Vec<(String, usize, Option<Lexicon>)> {
+    let n = 21_900; // x 3 bytes = 65,700
+    let text: String = std::iter::repeat('あ').take(n).collect::<String>() + "ばな。なです。つぎの文。おわり";
+    let lex = |ls: &[&[&str]]| Some(Lexicon { layers: ls.iter().map(|x| x.iter().map(|s| s.to_string()).collect()).collect() });
+    vec![
+        (text.clone(), 100_000, lex(&[&["な。な", "。", "です"]])),
+        // the window ends inside the word: its tail lies beyond the window but inside the text
+        (text, n + 5, lex(&[&["。", "な"], &["な。な"]])),
+    ]
+}
+
 fn corpus() -> Vec<(String, usize, Option<Lexicon>)> {
     let mut w: Vec<(String, usize, Option<Lexicon>)> = vec![];
     // words that contain / end with the terminator live in a user lexicon while the system lexicon has a word with the
@@ -835,7 +860,7 @@ fn words_in_text(dict: &JapaneseDictionary, text: &str) -> Vec<String> {
     let mut v = vec![];
     for (i, _) in text.char_indices() {
         for e in dict.lexicon().lookup(text.as_bytes(), i) {
-            if let Some(w) = text.get(i..e.end) {
+            if let Some(w) = text.get(i..e.end as usize) {
                 v.push(w.to_string());
             }
         }
@@ -1143,7 +1168,7 @@ fn cli_replay(sink: &mut Sink, c: &Value, args: &Args) {
 pub fn run(args: &Args) {
     let mut sink = Sink::new("C16", &args.out, &["Model.Sentence"], args.seed, &args.tier);
     sink.shard_size = 120;
-    sink.rule("texts over an alphabet of terminators, periods/full-width dots, middle dots, commas, regex-special characters (backslash ^ - * + | $, often right after a terminator / bracket / comma), <br>/<BR> tags and fragments, all bracket kinds, alphanumerics incl. kanji numerals, quoting particles, whitespace, 1-4 byte characters; directed shapes (itemisation headers, decimals, quotes, nesting) with one-piece perturbations; limits 1..8, 4096, |text|-1..|text|+1; without checker or with a checker over a system dictionary + 0..3 user dictionaries compiled in memory (one-character terminator entries, substrings of the text around terminators, long words; words containing a terminator and words with the same start are put into different lexicons, both directions, some words entered twice); command-line tool built from the working tree: multi-line files (dictionary words incl. those containing terminators, plain pieces, brackets, blank lines, CRLF) x {default, -w} x --split-sentences {yes, default, only} x modes over the repository's test configuration and over a generated system + user dictionary; the sentences visible in the output (EOS lines / wakati lines) must be the model's with the dictionary words of the line as lexicon oracle; non-trivial = the text contains a terminator candidate; distinct by generated Coq term");
+    sink.rule("texts over an alphabet of terminators, periods/full-width dots, middle dots, commas, regex-special characters (backslash ^ - * + | $, often right after a terminator / bracket / comma), <br>/<BR> tags and fragments, all bracket kinds, alphanumerics incl. kanji numerals, quoting particles, whitespace, 1-4 byte characters; directed shapes (itemisation headers, decimals, quotes, nesting) with one-piece perturbations; limits 1..8, 4096, |text|-1..|text|+1; two directed texts with more than 65,536 bytes before a dictionary word containing a terminator (windows 100,000 and |unpunctuated part|+5); without checker or with a checker over a system dictionary + 0..3 user dictionaries compiled in memory (one-character terminator entries, substrings of the text around terminators, long words; words containing a terminator and words with the same start are put into different lexicons, both directions, some words entered twice); command-line tool built from the working tree: multi-line files (dictionary words incl. those containing terminators, plain pieces, brackets, blank lines, CRLF) x {default, -w} x --split-sentences {yes, default, only} x modes over the repository's test configuration and over a generated system + user dictionary; the sentences visible in the output (EOS lines / wakati lines) must be the model's with the dictionary words of the line as lexicon oracle; non-trivial = the text contains a terminator candidate; distinct by generated Coq term");
     if let Some(p) = &args.replay {
         let v: Value = serde_json::from_str(&std::fs::read_to_string(p).unwrap()).unwrap();
         let c = &v["case"];
@@ -1202,7 +1227,14 @@ pub fn run(args: &Args) {
     let n = args.n(1300, 30000);
     let nlong = args.n(4, 40);
     let mut longs = 0;
+    let mut wides = wide_cases();
     for k in 0..n {
+        // a window of more than 64 KiB, one per shard
+        if k % sink.shard_size == 100 && !wides.is_empty() {
+            let (t, l, lex) = wides.remove(0);
+            one_case(&mut sink, &t, l, &lex, false);
+            sink.tag("more_than_64KiB_before_the_word");
+        }
         // texts longer than the default window, one per shard (their model evaluation is the slowest)
         if k % sink.shard_size == 60 && longs < nlong {
             longs += 1;
